@@ -83,6 +83,7 @@ pub struct Shard {
     next_index: u64,
     cur_index: u64,
     group_counter: u64,
+    auto_samples: u32,
     /// inside a group that `want_group` accepted: every case is this worker's
     pub group_mode: bool,
     pub cases: u64,
@@ -121,6 +122,7 @@ impl Shard {
             next_index: 0,
             cur_index: 0,
             group_counter: 0,
+            auto_samples: 0,
             group_mode: false,
             cases: 0,
             nontrivial: 0,
@@ -195,6 +197,13 @@ impl Shard {
     /// Announces the case about to run (its descriptor is only built when needed).
     pub fn begin(&mut self, desc: &dyn Fn() -> String) {
         self.cases += 1;
+        // the first cases of every shard are always kept as samples of what is being run
+        if self.auto_samples < 2 {
+            self.auto_samples += 1;
+            let d = desc();
+            let short: String = d.chars().take(600).collect();
+            self.samples.push(json!({"case": short}));
+        }
         if self.step_mode {
             let d = desc();
             let _ = writeln!(self.out, "B {} {}", self.cur_index, serde_json::to_string(&d).unwrap());
@@ -246,7 +255,7 @@ impl Shard {
     }
 
     pub fn sample(&mut self, v: Value) {
-        if self.samples.len() < 6 {
+        if self.samples.len() < 8 {
             self.samples.push(v);
         }
     }
